@@ -42,9 +42,13 @@ def pick_len(r, limit):
     return max(0, min(n, limit))
 
 
-def pair_case(r, faults=True, rounds=None, ideal=False):
-    """Two honest half-connections through a (faulty) relay."""
+def pair_case(r, faults=True, rounds=None, ideal=False, drain=None, use_credit=True, blackout=False):
+    """Two honest half-connections through a (faulty) relay. Payload seeds are a per-case counter, so every
+    (length, seed) pair and hence every payload is unique within a case."""
     c = pick_cfg(r)
+    if ideal:
+        c["ka"] = r.choice(["-", "5000"])
+    nsent = [0]
     ops = ["seed %d" % r.randrange(U32)] + hcnew_lines(c)
     now = 0
     rounds = rounds or r.choice([3, 6, 10, 20])
@@ -58,25 +62,33 @@ def pair_case(r, faults=True, rounds=None, ideal=False):
             o = 1 - e
             for _ in range(r.choice([0, 0, 1, 1, 2, 5])):
                 limit = min(c["alloc"][o], 3 * F)
-                ops.append("send %d %d %d %d %d" % (e, r.choice([0, 0, 1, 2, 63, r.randrange(64)]), r.randrange(4), pick_len(r, limit), r.randrange(1000)))
+                if nsent[0] >= 250:
+                    break
+                ops.append("send %d %d %d %d %d" % (e, r.choice([0, 0, 1, 2, 63, r.randrange(64)]), r.randrange(4), pick_len(r, limit), nsent[0]))
+                nsent[0] += 1
                 stats["sends"] += 1
             ops.append("step %d %d" % (e, now))
-            if r.random() < 0.5:
+            if use_credit and r.random() < 0.5:
                 ops.append("credit %d %d" % (e, r.choice([-5, 0, 30, 100, 1472, 3000, 10000, 1000000])))
             ops.append("flush %d" % e)
             if r.random() < 0.15:
                 ops.append("flush %d" % e)
-            if r.random() < 0.85:
-                ops.append("relay %d %d %d %d %d %d" % (e, o, drop, dup, swap, r.randrange(2 ** 31)))
+            dark = blackout and (rounds // 3 <= t < 2 * rounds // 3)
+            if ideal or r.random() < 0.85:
+                if dark:
+                    ops.append("relay %d %d 1000 0 0 1" % (e, o))     # blackout: everything lost
+                else:
+                    ops.append("relay %d %d %d %d %d %d" % (e, o, drop, dup, swap, r.randrange(2 ** 31)))
                 stats["relays"] += 1
-            if r.random() < 0.8:
+            if ideal or r.random() < 0.8:
                 ops.append("recv %d" % o)
     # drain: fault-free rounds so that reliable data completes
-    for t in range(r.choice([0, 4, 8])):
-        now += r.choice([50, 200, 700, 2500])
+    for t in range(r.choice([0, 4, 8]) if drain is None else drain):
+        now += r.choice([50, 200, 700, 2500]) if drain is None else 2500
         for e in (0, 1):
             ops.append("step %d %d" % (e, now))
-            ops.append("credit %d 100000" % e)
+            if use_credit:
+                ops.append("credit %d 100000" % e)
             ops.append("flush %d" % e)
             ops.append("relay %d %d 0 0 0 1" % (e, 1 - e))
             ops.append("recv %d" % (1 - e))
